@@ -85,7 +85,7 @@ theorem range_go (a l s : Int64) (next : Nat) :
       split at h <;> simp at h
 
 set_option maxHeartbeats 4000000 in
-theorem range_apply (mvs : List Value) (hsc : ∀ x ∈ mvs, Scalar x = true) (next : Nat) : RangeAgree mvs next := by
+theorem range_apply (mvs : List Value) (next : Nat) : RangeAgree mvs next := by
   have hz : ((0 : Int64).toInt) = 0 := Int64.toInt_zero
   have h1 : ((1 : Int64).toInt) = 1 := by decide
   rcases mvs with _ | ⟨a, _ | ⟨b, _ | ⟨c, _ | ⟨d, r⟩⟩⟩⟩
